@@ -17,6 +17,10 @@ CHECKS = {
    "explicit-state BFS with a shadow heap (guards, poison, quarantine) behind the crate's allocator hooks",
    "Every step of every explored history is audited against a shadow heap: reference count equals live handles, live blocks equal referenced buffers, every noted access lies inside a live block, layouts are repeated exactly, guard zones and freed-block poison are intact; every state is closed in all rotation orders and must leave nothing allocated.",
    "Bounded as C01. Accesses are observed at the hook sites (header/as_str/as_bytes/as_slice_mut/realloc/dealloc) plus guard/poison audits for unannounced writes."),
+ "C04": ("loomc", "model_checking", "§8 C04, §5",
+   "stateless model checking with loom (DPOR over all schedules and C11 visibility choices) of the real crate built with --cfg loom; heap blocks mapped to loom cells through the access hooks",
+   "All programs of the listed sets (2-3 threads, 0-3 operations each from a 17-operation alphabet, 6 set-up variants incl. threads owning every reference, differing lengths on one buffer, a handle shared by reference) are explored by loom to completion (unbounded or under the stated preemption bound). Per execution: every thread reads what its own operations produce sequentially; every buffer read/write/move/release noted by the crate is ordered by happens-before (loom cell per heap block); no use after free/double free/layout mismatch; counts equal handles after the joins; nothing allocated at the end.",
+   "loom 0.7.2's memory model; 2-3 threads; small programs; accesses observed at the hook sites."),
  "C05": ("seqmc", "fault_enumeration", "§8 C05, §4.6",
    "exhaustive allocation-failure injection over every state x operation x request index (singly, in-call pairs, pairs across a follow-up)",
    "For every stored state of the explored graph and every operation in both forms, every allocator request the operation issues is refused in turn; the outcome must be Err(ReserveError) / the documented panic / a correctly absorbed failure, the target must hold its previous value (iterator-driven calls: a prefix of the items), all other handles unchanged, reference counts consistent, every follow-up operation must behave like the model and closing must leave no block.",
@@ -92,6 +96,7 @@ def main():
         },
         "engines": [
             {"name": "seqmc", "path": "/verif/engines/src/bin/seqmc.rs", "serves_properties": sorted(p for p, v in CHECKS.items() if v[0] == "seqmc"), "kind_free_text": "explicit-state BFS over operation histories on the real crate (re-execution, exact canonical keys, shadow heap), plus per-state deviation passes"},
+            {"name": "loomc", "path": "/verif/loomc/src/main.rs", "serves_properties": ["C04"], "kind_free_text": "loom (controlled scheduler, DPOR, C11 visibility) over enumerated small concurrent programs on the real crate; child processes per program range"},
         ],
         "checks": checks,
         "not_applicable": na,
